@@ -18,7 +18,7 @@ struct U {
     dims: Dims,
 }
 
-const TFORMS: usize = 14;
+const TFORMS: usize = 19;
 
 pub struct C06 {
     fams: Fams,
@@ -299,11 +299,20 @@ fn target(f: usize, t: &U, u: &U) -> Option<(String, Rat, Dims)> {
         11 if same => (format!("5 {} mod 3 {}", tn, tn), rat(2, 1) * tv, t.dims.clone()),
         12 => (format!("2 {}^-1", tn), rat(2, 1) / tv, dims_pow(&t.dims, -1)),
         13 => (format!("7 {} / 2 {}", tn, un), rat(7, 2) * tv / uv, dims_mul(&t.dims, &u.dims, -1)),
+        // bitwise / shift constants: the printed factor must be the computed constant
+        14 => (format!("(4 xor 5) {}", tn), tv, t.dims.clone()),
+        15 => (format!("(6 and 3) {}", tn), rat(2, 1) * tv, t.dims.clone()),
+        16 => (format!("(1 or 2) {}", tn), rat(3, 1) * tv, t.dims.clone()),
+        17 => (format!("(1 << 2) {}", tn), rat(4, 1) * tv, t.dims.clone()),
+        18 => (format!("(16 >> 2) {}", tn), rat(4, 1) * tv, t.dims.clone()),
         _ => return None,
     })
 }
 
-const DIMLESS: [(&str, i64, i64); 6] = [
+const DIMLESS: [(&str, i64, i64); 9] = [
+    ("6 -> (1 or 2)", 6, 1),
+    ("6 -> (4 xor 5)", 6, 1),
+    ("6 -> (6 and 3)", 6, 1),
     ("6 -> 3", 6, 1),
     ("6 -> 1|3", 6, 1),
     ("7|2 -> 2", 7, 2),
@@ -381,7 +390,7 @@ impl Space for C06 {
         Meta {
             id: "C06",
             level: "exploration",
-            rule: "(a) every exact registry unit and base unit x magnitudes {0.999, 1, 1000} x 10^(3k) (every SI-prefix boundary, k in -10..10 thorough) x powers {1,2,3,-1}; (b) every product of up to 3 (thorough 4) distinct base units with exponents in {-2,-1,1,2} (all derived-unit regroupings) x {1, 1500}; (c) conversions of 3 values into 14 target shapes (constants, 1|3, sign, squares, products, quotients, sums, differences, mod) over a 10-unit core; (d) digits/sci/eng/frac/base modes; (e) every substance x 4 amounts, every reported property and unit-list/duration entry. Oracle: the reply's numeral (independent reader) x factor/divfactor x product of the printed unit names resolved with Context::lookup must equal the quantity computed by the harness from the registry dump, exactly for exact numerals and within one last-digit unit otherwise; raw_dimensions and quantity must be those of the result. Non-trivial = a numeric reply was judged; distinct by query text".into(),
+            rule: "(a) every exact registry unit and base unit x magnitudes {0.999, 1, 1000} x 10^(3k) (every SI-prefix boundary, k in -10..10 thorough) x powers {1,2,3,-1}; (b) every product of up to 3 (thorough 4) distinct base units with exponents in {-2,-1,1,2} (all derived-unit regroupings) x {1, 1500}; (c) conversions of 3 values into 19 target shapes (constants, 1|3, sign, squares, products, quotients, sums, differences, mod, and/or/xor and shift constants) over a 10-unit core; (d) digits/sci/eng/frac/base modes; (e) every substance x 4 amounts, every reported property and unit-list/duration entry. Oracle: the reply's numeral (independent reader) x factor/divfactor x product of the printed unit names resolved with Context::lookup must equal the quantity computed by the harness from the registry dump, exactly for exact numerals and within one last-digit unit otherwise; raw_dimensions and quantity must be those of the result. Non-trivial = a numeric reply was judged; distinct by query text".into(),
             assumptions: vec![
                 "temperature-scale replies are decided by C10".into(),
                 "float-valued units are skipped".into(),
